@@ -48,7 +48,9 @@ RULE = (
     "draw 1-4 tags / 1-3 labels for all four `which` modes (ops and oracle). oset: random method sequences over 4 "
     "quimb.utils.oset objects (add, discard, remove, clear, update, union, intersection(_update), difference(_update) "
     "with 0-4 arguments, | & - and |= &= -=, popleft, popright/pop, copy, in, len, ==) vs the list model, compared "
-    "incl. iteration order; non-trivial = an n-ary call with >= 2 arguments."
+    "incl. iteration order; non-trivial = an n-ary call with >= 2 arguments. Also per history: RemoveAll "
+    "(remove_all_tensors) then refill / rename through the dropped tensors; AddNet keeps bonds named in both operands apart; "
+    "stream of in-place 1D compressions (dm / zipup / fit / src / direct) with the old tensors kept alive."
 )
 
 WHICH = {"all": "WAll", "any": "WAny", "!all": "WNAll", "!any": "WNAny"}
